@@ -99,9 +99,15 @@ Theorem C05_cv_rows_textbook :
     end.
 Proof. exact cv_rows_textbook. Qed.
 
-(* every payoff component j < d of the vector engine IS a run of the scalar engine of Model/Mlmc.v on the payoff pay_j (same
-   control flow, N_l, counts, costs, passes; rows = component j of the stored rows): all theorems above about component 0
-   hold for every component; in particular the component-j estimator *)
+(* SIMULATION (audit 5a B7: this is parametricity of the engine in the stored row type plus ONE concrete fact).  The generic engine
+   never inspects a row: alloc / conv are oracles, so `map pr` commutes with every step for ANY projection pr with
+   pr (rowof l n) = mk_row .. (smp l n) and pr zero = zero (Proofs/C05_Vec.v gloop_simulates) -- it also holds for the projection
+   that forgets the row, onto the scalar engine fed with zero samples.  The concrete fact is pr_j j (srow_of .. l n) =
+   mk_row df notional l (pay_j of the raw sample) for j < d.  Reading: component j of the stored rows is what the scalar model
+   stores when BOTH engines are given the SAME allocation / convergence answers -- answers the code computes from component 0
+   (F-C05-5).  It is NOT a pricing of pay_j (a scalar pricing of pay_j would get other N_l; no rmse guarantee for j >= 1); it reads
+   the RAW rows (with controls price() reads the with_cv rows: C05_cv_rows_textbook).  What it buys: the row / count / cost theorems
+   of the scalar model transport to every component (C05_vec_component_price, C05_vec_reported_results_no_controls). *)
 Theorem C05_vec_component_is_scalar_run :
   forall sample pay d ctl cnot nc prices bst df notional cost alloc conv garbA garbB level_max j fuel L0 N0, (j < d)%nat ->
     pout (pr_j j) (gprice_run (srow_of sample pay d ctl cnot nc df notional) (coef_c d bst) (adj_c d prices) (zero_srow d nc)
@@ -109,6 +115,7 @@ Theorem C05_vec_component_is_scalar_run :
     = price_run (smp_j sample pay j) cost alloc conv (fun l n => pr_j j (garbA l n)) df notional level_max 0 fuel L0 N0.
 Proof. exact component_is_scalar_run. Qed.
 
+(* transported corollary (C05_price_is_sum_of_means through the simulation): the component-j estimator over the RAW rows *)
 Theorem C05_vec_component_price :
   forall sample pay d ctl cnot nc prices bst df notional cost alloc conv garbA garbB level_max j fuel L0 N0 s, (j < d)%nat ->
     (gprice_run (srow_of sample pay d ctl cnot nc df notional) (coef_c d bst) (adj_c d prices) (zero_srow d nc)
@@ -127,10 +134,15 @@ Theorem C05_vec_fixed_level_variant :
     length vs = S Lmax /\ all_ix (glev_done rowof coef adj) 0 vs /\ Forall (fun v => gN v = N) vs.
 Proof. intros A B C. exact (@gfixed_rows_are_samples A B C). Qed.
 
-(* multi-process branch: whatever assignment sigma of the level's draws to the iteration indices the pool produces, at every
-   return level l holds in iteration order the rows of the draws sigma l 0 .. sigma l (N_l - 1) and N_l = number of paths
-   simulated; if every draw was handed to exactly one iteration (sigma l permutes 0 .. N_l - 1) the stored rows are a
-   permutation of the simulated samples ... *)
+(* multi-process branch.  (audit 5a B8 / A5) By itself this is C05_vec_rows_are_samples' invariant on the sampler renamed through sigma
+   (mp_rowof rowat sample sigma l n = rowat l (sample l (sigma l n)) by definition); that the pool callback IS that engine is
+   C05_callback_merge / _chunks / _is_single_process_loop below.  Whatever assignment sigma of the level's draws to the iteration
+   indices the pool produces, at every return level l holds in iteration order the rows of the draws sigma l 0 .. sigma l (N_l - 1) and
+   N_l = number of paths simulated; CONDITIONAL clause: if every draw was handed to exactly one iteration (sigma l permutes
+   0 .. N_l - 1) the stored rows are a permutation of the simulated samples.  That hypothesis is discharged only on the harness'
+   scripted process (draw index from a shared-memory counter; sigma read from an independent tag channel of the path).  For a REAL
+   fixed-date process it is FALSE (finding F-C08-3 of C08: every map_async chunk pops the parent's pre-drawn rows 0, 1, .. again;
+   64 paths on 2 workers store 13-27 distinct rows) -- sigma := fun _ _ => 0 is also an instance of the unconditional part. *)
 Theorem C05_mp_rows_permutation :
   forall (A B C : Type) (rowat : nat -> Q * Q -> A) sample sigma (coef : nat -> list A -> C) (adj : nat -> C -> A -> B)
          zA zB cost alloc conv garbA garbB level_max fuel L0 N0,
@@ -188,6 +200,20 @@ Theorem C05_callback_is_single_process_loop :
     merge start res (a ++ b) = gdraw (fun _ n => lookup d (n - c) res) l start c k (a ++ b).
 Proof. intros A. exact (@merge_is_gdraw A). Qed.
 
+(* wave 8: what price() / mlmc_results read (Model/MlmcVec.v lev_of, gprice -- the definitions the correspondence evaluates), without
+   controls: the records of component j are the projections of the stored rows (bookkeeping), they satisfy results_ok for the samples
+   pay_j of exactly the simulated paths (transported through the simulation), and the model's price() is mlmc_price of component 0 *)
+Theorem C05_vec_reported_results_no_controls :
+  forall sample pay d ctl cnot prices bst df notional cost alloc conv garbA garbB level_max j fuel L0 N0 s, (j < d)%nat ->
+    (gprice_run (srow_of sample pay d ctl cnot 0 df notional) (coef_c d bst) (adj_c d prices) (zero_srow d 0)
+                (repeat zero_row d) cost alloc conv garbA garbB level_max fuel L0 N0 = Converged s \/
+     gprice_run (srow_of sample pay d ctl cnot 0 df notional) (coef_c d bst) (adj_c d prices) (zero_srow d 0)
+                (repeat zero_row d) cost alloc conv garbA garbB level_max fuel L0 N0 = Fallthrough s) ->
+    map (lev_of 0 j) (glevels s) = map (proj_lev j) (glevels s)
+    /\ all_lev (results_ok (smp_j sample pay j) df notional) 0 (map (lev_of 0 j) (glevels s))
+    /\ gprice 0 (glevels s) = mlmc_price (map (lev_of 0 0) (glevels s)).
+Proof. exact reported_results_no_controls. Qed.
+
 (* non-vacuity, and the behaviour before the repair (F-C05-1, fixed by d6e63ca on fix-mc) *)
 Example C05_nonvacuous_repaired :
   exists s v, w_run 0 = Converged s /\ nth_error (levels s) 3 = Some v /\
@@ -222,6 +248,13 @@ Example C05_mp_nonvacuous :
               = Converged s /\ nth_error (glevels s) 0 = Some v /\ map (fun r => Qred (fst r)) (grows v) = [2; 1; 4].
 Proof. split; [simpl; apply perm_swap|]. vm_compute. eexists. eexists. repeat split. Qed.
 
+(* non-vacuity of C05_vec_reported_results_no_controls: the same history without controls, component 1 of level 1 *)
+Example C05_vec_reported_nonvacuous :
+  exists s v, vrun_tab 2 0 [] w5_samples [1; 2; 4] [[3; 0]; [3; 3]; [3; 3]]%Z [false; true] 1 1 1 10 0 2 = Converged s /\
+              nth_error (map (lev_of 0 1) (glevels s)) 1 = Some v /\ lN v = 3%nat /\
+              map (fun r => Qred (fst r)) (lrows v) = [25 # 4; 41 # 4; 73 # 4].
+Proof. vm_compute. eexists. eexists. repeat split. Qed.
+
 (* non-vacuity of the wave-7 theorems: initial level 1, one path each; second pass asks for 1 and 2 more; the simulation of the
    first extra path of level 0 raises: level 1 (N = 1) is exposed with two zero placeholders behind its sample; a fault point
    that is never reached gives the uninterrupted run *)
@@ -255,10 +288,12 @@ Print Assumptions C05_abort_exposed_state.
 Print Assumptions C05_callback_merge.
 Print Assumptions C05_callback_chunks.
 Print Assumptions C05_callback_is_single_process_loop.
+Print Assumptions C05_vec_reported_results_no_controls.
 Print Assumptions C05_nonvacuous_repaired.
 Print Assumptions C05_stale_manager_before_repair.
 Print Assumptions C05_phantom_sample_before_repair.
 Print Assumptions C05_vec_cv_nonvacuous.
 Print Assumptions C05_mp_nonvacuous.
+Print Assumptions C05_vec_reported_nonvacuous.
 Print Assumptions C05_abort_nonvacuous.
 Print Assumptions C05_callback_nonvacuous.
